@@ -1,4 +1,5 @@
 import XmpModel.FmtMod
+import XmpModel.FmtS3m
 /-! Native driver for C19.  Line protocol (stdin → stdout):
 
 * `gen <fmt> <id> <seed> <size>` : builds a random well-formed abstract song and writer
@@ -150,6 +151,95 @@ def gen (size : Nat) : G (Module × Opts × String) := do
 
 end GenMod
 
+
+/-- shared: random PCM of `n` bytes in several shapes -/
+def genRawPcm (n : Nat) : G Bytes := do
+  match (← below 4) with
+  | 0 => genBytes n
+  | 1 => pure ((List.range n).map fun i => u8 (i * 5 + 3))
+  | 2 => listOf n (do return if (← chance 50) then 0x7f else 0x80)
+  | _ => listOf n (do return u8 ((← below 16) + 248))
+
+/-- shared: loop points for a sample of `len` frames: `(lps, lpe)` with `lps < lpe ≤ len` -/
+def genLoop (len : Nat) : G (Nat × Nat) := do
+  if (← chance 25) then return (0, len)
+  let a ← range 0 (len - 1)
+  let b ← range (a + 1) len
+  return (a, b)
+
+def hashNat (seed : UInt64) (i : Nat) : Nat := (hashFx seed i).1.toNat
+
+namespace GenS3m
+open S3m
+
+def genCell (nz : Nat) : G Cell := do
+  if !(← chance nz) then return {}
+  let note ← match (← below 10) with
+    | 0 => pure KEY_OFF
+    | 1 | 2 | 3 => pure 0
+    | _ => range 13 108
+  let ins ← if (← chance 70) then range 0 99 else if (← chance 20) then range 100 255 else pure 0
+  let vol ← if (← chance 50) then range 1 65 else pure 0
+  return { note := note, ins := ins, vol := vol }
+
+def genSlot (i maxLen : Nat) : G (Ins × Smp) := do
+  let name ← genName 28
+  if (← chance 30) then
+    return ({ name := name, subs := [] }, { name := [], len := 0, lps := 0, lpe := 0, flg := 0, pcm := [] })
+  let flg0 := (if (← chance 40) then F16BIT else 0) + (if (← chance 30) then FSTEREO else 0)
+  let len ← if (← chance 15) then range 1 4 else range 1 maxLen
+  let vol ← range 0 64
+  let looped ← chance 50
+  let (lps, lpe) ← if looped then genLoop len else pure (0, 0)
+  let flg := flg0 + (if looped then FLOOP else 0)
+  let pcm ← genRawPcm (len * frameBytes flg)
+  return ({ name := name, subs := [{ sid := i, vol := vol, pan := 0x80, xpo := 0, fin := 0 }] },
+          { name := [], len := len, lps := lps, lpe := lpe, flg := flg, pcm := pcm })
+
+def gen (size : Nat) : G (Module × Opts × String) := do
+  let chn ← if (← chance 60) then range 1 8 else range 1 32
+  let npat ← if (← chance 5) then range 1 100 else range 1 (2 + size)
+  let npat := if size = 0 then min npat 3 else npat
+  let len ← range 1 (min 255 (4 + 10 * size))
+  let ords ← listOf len (do
+    if (← chance 12) then return (if (← chance 50) then 0xfe else 0xff) else below npat)
+  let pos ← below len
+  let ords := (ords.take pos ++ [npat - 1] ++ ords.drop (pos + 1)).map u8
+  let nz ← range 3 95
+  let emptyPat ← below (npat + 3)
+  let pats ← (List.range npat).mapM fun k => do
+    let cells ← listOf (64 * chn) (genCell (if k = emptyPat then 0 else nz))
+    return ({ rows := 64, cells := cells } : Pat)
+  let nins ← if (← chance 10) then range 0 1 else range 1 (3 + 4 * size)
+  let maxLen := if size = 0 then 40 else if size = 1 then 400 else 3000
+  let slots ← (List.range nins).mapM fun i => genSlot i maxLen
+  let name ← genName 28
+  let spd ← range 1 255
+  let bpm ← if (← chance 70) then range 32 255 else range 20 255
+  let ffi ← range 1 2
+  let panOn ← chance 50
+  let pan ← genBytes 32
+  let fseed ← next
+  let xseed ← next
+  let cseed ← next
+  let forceMode ← below 3
+  let nullEmpty ← chance 50
+  let cwt ← match (← below 4) with
+    | 0 => pure 0x1320 | 1 => pure 0x1300 | 2 => pure 0x3217 | _ => pure 0x5130
+  let m : Module := { name := name, chn := chn, orders := ords, pats := pats, ins := slots.map (·.1),
+                      smps := slots.map (·.2), spd := spd, bpm := bpm }
+  let o : Opts := { ffi := ffi, cwt := cwt, flags := (← below 256), gv := u8 (← range 0 64), mv := u8 (← below 256),
+                    pan := if panOn then some pan else none,
+                    chset := fun k => u8 (hashNat cseed k % 16 + (if hashNat cseed (k + 100) % 2 = 0 then 0 else 0x80) % 255),
+                    c2spd := fun i => 4000 + (hashNat cseed (i + 1000)) * 97,
+                    nullEmpty := nullEmpty,
+                    force := fun i => if forceMode = 0 then 0 else if forceMode = 1 then hashNat fseed i % 8
+                                      else (if hashNat fseed i % 4 = 0 then hashNat fseed (i + 7) % 8 else 0),
+                    fx := hashFx xseed }
+  return (m, o, s!"chn={chn} pat={npat} len={len} ins={nins} ffi={ffi} pan={panOn} nullEmpty={nullEmpty} force={forceMode} cwt={cwt}")
+
+end GenS3m
+
 /-! ### commands -/
 def seedState (seed : Nat) : UInt64 :=
   let s := UInt64.ofNat seed * 0x9E3779B97F4A7C15 + 0xD1B54A32D192ED03
@@ -169,6 +259,18 @@ def cmdGen (fmt id : String) (seed size : Nat) : IO Unit := do
       | none => "none"
       | some m' => if m' = m then "ok" else "differ"
     IO.println s!"rt {rt}"
+    IO.println s!"wf {decide (Mod.WellFormed m o)}"
+    emit (dumpModule m)
+  | "s3m" =>
+    let ((m, o, desc), _) := (GenS3m.gen size).run (seedState seed)
+    let bytes := S3m.write m o
+    IO.println s!"opts {desc}"
+    IO.println s!"hex {toHex bytes}"
+    let rt := match S3m.read bytes with
+      | none => "none"
+      | some m' => if m' = m then "ok" else "differ"
+    IO.println s!"rt {rt}"
+    IO.println s!"wf {decide (S3m.WellFormed m o)}"
     emit (dumpModule m)
   | _ => IO.println "unsupported"
   IO.println "end"
@@ -178,6 +280,7 @@ def cmdRead (fmt id hex : String) : IO Unit := do
   let bytes := parseHex hex
   let r := match fmt with
     | "mod" => Mod.read bytes
+    | "s3m" => S3m.read bytes
     | _ => none
   match r with
   | none => IO.println "silent"
